@@ -17,6 +17,9 @@ use flac_codec::metadata::{
     Padding, Picture, PictureType, Streaminfo, VorbisComment,
 };
 use flac_codec::Error;
+#[path = "metadata_inc/common.rs"]
+#[allow(dead_code)]
+mod mcommon;
 use std::io::{Cursor, Seek, SeekFrom};
 use vharness::json::{arr, esc, obj};
 use vharness::*;
@@ -305,6 +308,8 @@ fn run_spec(ctx: &mut Ctx, auds: &[Audio], spec: &str) {
             return;
         }
         let old_size = (audio_off - pre) as u64;
+        // for the whole-file run of the composed model (small files only)
+        let file_before: Option<Vec<u8>> = if file.len() <= 6000 { Some(file.clone()) } else { None };
         let mut captured: Option<BlockList> = None;
         let mut orig_after: Vec<u8>;
         let mut rebuilt: Vec<u8> = vec![];
@@ -428,6 +433,19 @@ fn run_spec(ctx: &mut Ctx, auds: &[Audio], spec: &str) {
             None => f.push(("edited", "null".to_string())),
         }
         println!("{}", obj(&f));
+        // the same step for the composed model: the file before, the list the callback left (typed dump), both outputs
+        if let (Some(fb), Ok(r)) = (&file_before, &res) {
+            let dump = captured.as_ref().map(|b| {
+                let blocks: Vec<Block> = b.clone().into_iter().collect();
+                mcommon::dump_blocks(&blocks)
+            });
+            if dump.as_ref().map(|d| d.len() <= 40000).unwrap_or(true) && orig_after.len() <= 60000 && rebuilt.len() <= 60000 {
+                let _ = r;
+                println!("{}", obj(&[("t", esc("full")), ("spec", esc(spec)), ("step", step.to_string()), ("start", pre.to_string()),
+                    ("file", esc(&hex(fb))), ("edited", match &dump { Some(d) => esc(d), None => "null".to_string() }),
+                    ("res", esc(&res_s)), ("orig", esc(&hex(&orig_after))), ("rebuilt", esc(&hex(&rebuilt)))]));
+            }
+        }
         if step > 0 {
             ctx.steps_hist += 1;
         }
